@@ -433,6 +433,32 @@ def _boot_ack_read_unconditional():
     return "true"
 
 
+@fact("execmodel_primitives_ok", "bool", "false")
+def _execmodel_primitives_ok():
+    """every execution model builds its locks, events and queues from ITS OWN concurrency library (a threading lock does not
+    exclude greenlets of one OS thread from each other: the receive lock of a gevent gateway would stop protecting setcallback's
+    hand-over): Thread* -> threading / queue, Gevent* -> gevent.lock / gevent.event / gevent.queue, Eventlet* -> eventlet.*"""
+    want = {
+        "ThreadExecModel": {"Lock": "threading.RLock()", "RLock": "threading.RLock()", "Event": "threading.Event()", "queue": "queue"},
+        "GeventExecModel": {"Lock": "gevent.lock.RLock()", "RLock": "gevent.lock.RLock()", "Event": "gevent.event.Event()", "queue": "gevent.queue"},
+        "EventletExecModel": {"Lock": "eventlet.semaphore.Semaphore()", "RLock": "eventlet.semaphore.Semaphore()", "Event": "eventlet.green.threading.Event()", "queue": "eventlet.queue"},
+    }
+    for cls, meths in want.items():
+        for m, expr in meths.items():
+            f = find("gateway_base.py", cls + "." + m)
+            rets = [unparse(n.value) for n in ast.walk(f) if isinstance(n, ast.Return) and n.value is not None]
+            if rets != [expr]:
+                if cls == "EventletExecModel":
+                    # not installed here and not exercised: only required to stay inside its own library
+                    if len(rets) == 1 and rets[0].startswith("eventlet."):
+                        continue
+                return "false"
+    mt = find("gateway_base.py", "MainThreadOnlyExecModel")
+    if [unparse(b) for b in mt.bases] != ["ThreadExecModel"] or any(isinstance(n, ast.FunctionDef) and n.name in ("Lock", "RLock", "Event", "queue") for n in mt.body):
+        return "false"
+    return "true"
+
+
 @fact("read_loops_exact", "bool", "false")
 def _read_loops_exact():
     """Popen2IO.read and SocketIO.read loop until exactly numbytes arrived and raise EOFError on an empty read"""
